@@ -1,5 +1,5 @@
 (* Correspondence evaluators for the types / hash / validators (C06, C16, C17, C18). *)
-From EB Require Export Corr.Common Types.MutationCodec Types.PredicateCodec Types.Postcard Hash.Addr Hash.Sha256 Check.Validate Types.Hex Types.Serde.
+From EB Require Export Corr.Common Types.MutationCodec Types.PredicateCodec Types.Postcard Hash.Addr Hash.Sha256 Check.Validate Types.Hex Types.Serde Types.PostcardAll.
 Open Scope list_scope.
 Open Scope Z_scope.
 
@@ -27,15 +27,80 @@ Definition eres_of (x : outcome penc_err (list Z)) : eres :=
 Definition eres_eqb (a b : eres) : bool :=
   match a, b with EOk x, EOk y => zlist_eqb x y | ETooManyNodes, ETooManyNodes => true | ETooManyEdges, ETooManyEdges => true | _, _ => false end.
 
+(* a value of one of the public data types, for the binary (postcard) serde surface *)
+Inductive pcv :=
+| PVContentAddress (a : list Z) | PVPredicateAddress (c p : list Z) | PVMutation (m : mutation) | PVSolution (s : solution)
+| PVSolutionSet (ss : list solution) | PVPredicate (p : predicate) | PVProgram (bs : list Z) | PVContract (c : contract)
+| PVSignature (b : list Z) (id : Z) | PVSignedContract (sc : signed_contract).
+
+Definition contract_eqb (a b : contract) : bool := list_eqb pred_eqb (c_predicates a) (c_predicates b) && zlist_eqb (c_salt a) (c_salt b).
+Definition sig_eqb (a b : list Z * Z) : bool := zlist_eqb (fst a) (fst b) && (snd a =? snd b).
+Definition sol_eqb_pc (a b : solution) : bool :=
+  zlist_eqb (sol_contract a) (sol_contract b) && zlist_eqb (sol_predicate a) (sol_predicate b)
+  && zzlist_eqb (sol_data a) (sol_data b) && list_eqb mut_eqb (sol_muts a) (sol_muts b).
+
+Definition pcv_encode (v : pcv) : list Z :=
+  match v with
+  | PVContentAddress a => pc_content_address a
+  | PVPredicateAddress c p => pc_predicate_address (c, p)
+  | PVMutation m => pc_mutation m
+  | PVSolution s => pc_solution s
+  | PVSolutionSet ss => pc_solution_set ss
+  | PVPredicate p => pc_predicate p
+  | PVProgram bs => pc_program bs
+  | PVContract c => pc_contract c
+  | PVSignature b id => pc_signature (b, id)
+  | PVSignedContract sc => pc_signed_contract sc
+  end.
+
+(* the model's decoder applied to the bytes gives back the value *)
+Definition pcv_decodes (v : pcv) (bs : list Z) : bool :=
+  match v with
+  | PVContentAddress a => match from_bytes dec_content_address bs with Some x => zlist_eqb x a | None => false end
+  | PVPredicateAddress c p => match from_bytes dec_predicate_address bs with Some x => zlist_eqb (fst x) c && zlist_eqb (snd x) p | None => false end
+  | PVMutation m => match from_bytes dec_mutation bs with Some x => mut_eqb x m | None => false end
+  | PVSolution s => match from_bytes dec_solution bs with Some x => sol_eqb_pc x s | None => false end
+  | PVSolutionSet ss => match from_bytes dec_solution_set bs with Some x => list_eqb sol_eqb_pc x ss | None => false end
+  | PVPredicate p => match from_bytes dec_predicate bs with Some x => pred_eqb x p | None => false end
+  | PVProgram b => match from_bytes dec_program bs with Some x => zlist_eqb x b | None => false end
+  | PVContract c => match from_bytes dec_contract bs with Some x => contract_eqb x c | None => false end
+  | PVSignature b id => match from_bytes dec_signature bs with Some x => sig_eqb x (b, id) | None => false end
+  | PVSignedContract sc => match from_bytes dec_signed_contract bs with
+                           | Some x => contract_eqb (sc_contract x) (sc_contract sc) && sig_eqb (sc_signature x) (sc_signature sc)
+                           | None => false end
+  end.
+
+(* does the model's decoder accept these (possibly damaged) bytes at all? *)
+Definition pcv_accepts (kind : Z) (bs : list Z) : bool :=
+  match kind with
+  | 0 => match from_bytes dec_content_address bs with Some _ => true | None => false end
+  | 1 => match from_bytes dec_predicate_address bs with Some _ => true | None => false end
+  | 2 => match from_bytes dec_mutation bs with Some _ => true | None => false end
+  | 3 => match from_bytes dec_solution bs with Some _ => true | None => false end
+  | 4 => match from_bytes dec_solution_set bs with Some _ => true | None => false end
+  | 5 => match from_bytes dec_predicate bs with Some _ => true | None => false end
+  | 6 => match from_bytes dec_program bs with Some _ => true | None => false end
+  | 7 => match from_bytes dec_contract bs with Some _ => true | None => false end
+  | 8 => match from_bytes dec_signature bs with Some _ => true | None => false end
+  | _ => match from_bytes dec_signed_contract bs with Some _ => true | None => false end
+  end.
+
 Inductive types_case :=
+| TPanicked                                                             (* the implementation panicked while the case was being computed *)
+| TPostcard (v : pcv) (bytes : list Z) (back_ok : bool)                 (* postcard::to_allocvec; from_bytes(bytes) == value *)
+| TPostcardDamaged (kind : Z) (bytes : list Z) (accepted : bool)        (* postcard::from_bytes::<T> on damaged bytes: accepted or rejected *)
 | TDecodeMutations (ws : list Z) (res : mres)
 | TDecodeMutation (ws : list Z) (res : mres)                            (* MOk [m] on success *)
 | TEncodeMutations (ms : list mutation) (words : list Z) (sizes : list Z) (back : mres)
 | TPredDecode (bs : list Z) (res : pres)
 | TPredEncode (p : predicate) (res : eres) (size : Z) (back : pres)
+| TPredEncodeSized (n e : Z) (kind : Z) (len : Z) (size : Z) (back_ok : bool) (addr : list Z)
+                                  (* `sized_pred n e`: 0 encoded / 1 TooManyNodes / 2 TooManyEdges, length, encoded_size, round trip, address *)
 | TNodeEdges (p : predicate) (results : list (option (list Z)))         (* node_edges(i), i = 0 .. n+1 *)
 | TWord (w : Z) (bytes : list Z) (back : Z)                             (* bytes_from_word, word_from_bytes *)
 | TWordSlice (bs : list Z) (w : Z)                                      (* word_from_bytes_slice: up to 8 bytes, left aligned, zero padded *)
+| TBoolWord (w : Z) (r : Z)                                             (* bool_from_word: 0 Some false, 1 Some true, 2 None *)
+| THashIter (chunks : list (list Z)) (h : list Z) (h_flat : list Z)     (* hash_bytes_iter over the chunks; hash_bytes of their concatenation *)
 | THashWords (ws : list Z) (h : list Z) (hb : list Z)                   (* essential_hash::hash_words; hash_bytes of the same bytes *)
 | TWords4 (b32 : list Z) (ws : list Z) (back : list Z)                  (* word_4_from_u8_32, u8_32_from_word_4 *)
 | TWords8 (b64 : list Z) (ws : list Z) (back : list Z)
@@ -85,15 +150,27 @@ Definition H := sha256.
 
 Definition types_mismatch (c : types_case) : bool :=
   match c with
+  | TPanicked => true
+  | TPostcard v bs _ => negb (zlist_eqb (pcv_encode v) bs && pcv_decodes v bs)
+  | TPostcardDamaged k bs acc => negb (Bool.eqb (pcv_accepts k bs) acc)
   | TDecodeMutations ws r => negb (mres_eqb (mres_of (decode_mutations ws)) r)
   | TDecodeMutation ws r => negb (mres_eqb (mres_of (omap (fun m => [m]) (decode_mutation ws))) r)
   | TEncodeMutations ms words sizes _ =>
       negb (zlist_eqb (encode_mutations ms) words && zlist_eqb (map encode_mutation_size ms) sizes)
   | TPredDecode bs r => negb (pres_eqb (pres_of (decode_predicate bs)) r)
   | TPredEncode p r size _ => negb (eres_eqb (eres_of (encode_predicate p)) r && (predicate_encoded_size p =? size))
+  | TPredEncodeSized n e kind len size _ addr =>
+      negb (match encode_predicate (sized_pred n e) with
+            | Ok bs => (kind =? 0) && (zlen bs =? len)
+            | Err TooManyNodes => kind =? 1
+            | Err TooManyEdges => kind =? 2
+            | _ => false
+            end && (predicate_encoded_size (sized_pred n e) =? size) && zlist_eqb (predicate_addr H (sized_pred n e)) addr)
   | TNodeEdges p rs => negb (list_eqb optlist_eqb (map (node_edges p) (seq 0 (length (p_nodes p) + 2))) rs)
   | TWord w bytes back => negb (zlist_eqb (bytes_of_word w) bytes && (word_of_bytes bytes =? back))
   | TWordSlice bs w => negb (word_of_bytes (firstn 8 (bs ++ repeat 0 8)) =? w)
+  | TBoolWord w r => negb (r =? (if w =? 0 then 0 else if w =? 1 then 1 else 2))
+  | THashIter chunks h _ => negb (zlist_eqb (sha256 (concat chunks)) h)
   | THashWords ws h _ => negb (zlist_eqb (sha256 (bytes_of_words ws)) h)
   | TWords4 b32 ws back => negb (zlist_eqb (words_of_bytes 4 b32) ws && zlist_eqb (bytes_of_words ws) back)
   | TWords8 b64 ws back => negb (zlist_eqb (words_of_bytes 8 b64) ws && zlist_eqb (bytes_of_words ws) back)
@@ -125,6 +202,9 @@ Definition spec_check_set (sols : list solution) : bool :=
 (* the properties evaluated on the implementation's own outputs *)
 Definition types_spec_fail (c : types_case) : bool :=
   match c with
+  | TPanicked => true
+  | TPostcard _ _ back_ok => negb back_ok
+  | TPostcardDamaged _ _ _ => false
   | TDecodeMutations _ r | TDecodeMutation _ r => match r with MPanic => true | _ => false end
   | TEncodeMutations ms words sizes back =>
       negb (mres_eqb back (MOk ms)                                              (* round trip *)
@@ -139,6 +219,12 @@ Definition types_spec_fail (c : types_case) : bool :=
       | ETooManyEdges => negb ((zlen (p_nodes p) <=? 1000) && (1000 <? zlen (p_edges p)))
       | EPanic => true
       end
+  | TPredEncodeSized n e kind len size back_ok addr =>
+      (* at most 1000 nodes and 1000 edges encode (to 34 n + 2 e + 4 bytes) and decode back; anything larger is refused;
+         the address of an encodable predicate is not the all-zero placeholder *)
+      negb (if (n <=? 1000) && (e <=? 1000)
+            then (kind =? 0) && (len =? 34 * n + 2 * e + 4) && (size =? len) && back_ok && negb (zlist_eqb addr (repeat 0 32))
+            else if 1000 <? n then kind =? 1 else kind =? 2)
   | TNodeEdges p rs =>
       (* documented sub-range: empty for the leaf marker; [edge_start, next non-leaf edge_start or |edges|) *)
       negb (list_eqb optlist_eqb rs
@@ -156,6 +242,8 @@ Definition types_spec_fail (c : types_case) : bool :=
   | TWord w bytes back => negb ((back =? w) && (length bytes =? 8)%nat
                                 && (be_val bytes =? w mod 18446744073709551616))
   | TWordSlice bs w => negb ((w mod 18446744073709551616) =? be_val (firstn 8 (bs ++ repeat 0 8)))
+  | TBoolWord w r => negb (r =? (if w =? 0 then 0 else if w =? 1 then 1 else 2))
+  | THashIter _ h hf => negb (zlist_eqb h hf)
   | THashWords _ h hb => negb (zlist_eqb h hb)
   | TWords4 b32 ws back => negb (zlist_eqb back b32 && (length ws =? 4)%nat)
   | TWords8 b64 ws back => negb (zlist_eqb back b64 && (length ws =? 8)%nat)
